@@ -217,6 +217,7 @@ MUTANTS['C04'] = [
 ]
 
 MUTANTS['C05'] = [
+  ('map-iter-keeps-input-iterator-in-a-local', [(C, "            for v in self.input_dataset:\n                yield self.map_function(v)\n\n    def keys(self):", "            iterator = iter(self.input_dataset)\n            for v in iterator:\n                yield self.map_function(v)\n\n    def keys(self):")]),
   ('stp-sentinel-guard-removed', [(P, "            if not shutdown:\n                # This is not necessary", "            if True:\n                # This is not necessary")]),
   ('stp-drain-loop-removed', [(P, "            while True:\n                data_queue.get_nowait()", "            pass")]),
   ('stp-shutdown-flag-after-drain', [(P, "        shutdown = True\n        try:\n            # Handle a break of the iteration.", "        try:\n            # Handle a break of the iteration."), (P, "        except queue.Empty:\n            pass\n        thread.join()", "        except queue.Empty:\n            pass\n        shutdown = True\n        thread.join()")]),
